@@ -171,7 +171,7 @@ def run(rec):
                 'sorted MPO legs; non-trivial = at least one two-site or multi-site term')
     rec.bounds = {'L': [3, 4, 5], 'models_per_family_and_bc': n_models}
     tol = 1e-9
-    for fname, fam in mpsgen.site_families():
+    for fname, fam in [x for x in mpsgen.site_families() if not getattr(x[1], 'takes_L', False)]:
         for bc in ('open', 'periodic'):
             for k in range(n_models):
                 L = int(rng.integers(3, 5 if quick else 6))
